@@ -58,6 +58,13 @@ func runC13RaftStore(sum *Summary) error {
 		{key: "/k", val: "v4", ver: konst(0)},
 		{key: "/tables/a", val: "{}", ver: konst(0)},
 		{key: "/tables/a", val: "{}", ver: cur("/tables/a")}, // identical value: the version still moves
+		// a STALE version together with the value that is already stored (two writers that computed the same next value
+		// from the same read - the id sequence, a lease renewal): a mismatch all the same
+		{key: "/tables/a", val: "{}", ver: konst(1)},
+		{key: "/tables/sys/idseq", val: "10001", ver: konst(0)},
+		{key: "/tables/sys/idseq", val: "10002", ver: cur("/tables/sys/idseq")},
+		{key: "/tables/sys/idseq", val: "10002", ver: konst(2)}, // the loser of the race writes the same number with the version it read
+		{key: "/tables/sys/idseq", val: "10002", ver: konst(3)},
 	}
 	var log []string
 	for i, st := range steps {
